@@ -6,4 +6,6 @@
 #[cfg(kani)]
 pub mod util;
 #[cfg(kani)]
+pub mod c02;
+#[cfg(kani)]
 pub mod c04;
